@@ -411,16 +411,20 @@ Proof. intro H. unfold go_full_name. now rewrite (hid_eq_go_ty _ _ H). Qed.
 Lemma hid_eq_comparable e1 e2 : hid_eq e1 e2 -> comparable e1 = comparable e2.
 Proof. intros []; reflexivity. Qed.
 
+(* a non-leaf can be a non-comparable value (ut.WNoCmp): [go_eq] is then false on either side *)
 Lemma go_eq_nonleaf c r :
   match c with Leaf _ _ => False | _ => True end ->
   go_eq c r =
+  comparable c && comparable r &&
   match r with
   | Leaf _ LDeadline | Leaf _ (LErrno _) | Leaf _ (LUser ULVal _ _ _) | Leaf _ (LUser ULNoCmp _ _ _) => false
   | _ => Pos.eqb (node_oid c) (node_oid r) && same_go_type c r
   end.
 Proof.
-  destruct c; try contradiction; intros _;
-    destruct r as [? [| | | | | | | | | | |[] ? ? ?]| | | | | |]; reflexivity.
+  destruct c as [|ic wc cc| | | | |]; try contradiction; intros _.
+  1: destruct wc; try match goal with u : uwrap |- _ => destruct u end.
+  all: destruct r as [? [| | | | | | | | | | |[] ? ? ?]|ir wr cr| | | | |]; try reflexivity.
+  all: destruct wr; try reflexivity; match goal with u : uwrap |- _ => destruct u end; reflexivity.
 Qed.
 
 Lemma hid_eq_nonleaf e1 e2 :
@@ -439,7 +443,7 @@ Lemma hid_eq_go_eq_l e1 e2 r : hid_eq e1 e2 -> go_eq e1 r = go_eq e2 r.
 Proof.
   intro H. destruct (hid_eq_nonleaf _ _ H) as [->|[N1 N2]]; [reflexivity|].
   rewrite !go_eq_nonleaf by assumption.
-  rewrite (hid_eq_node_oid _ _ H), (hid_eq_same_go_type_l _ _ r H). reflexivity.
+  rewrite (hid_eq_node_oid _ _ H), (hid_eq_same_go_type_l _ _ r H), (hid_eq_comparable _ _ H). reflexivity.
 Qed.
 
 Lemma is_method_nonleaf_l c r : match c with Leaf _ _ => False | _ => True end -> is_method c r = false.
@@ -461,20 +465,23 @@ Qed.
 Lemma go_eq_nonleaf_r c r :
   match r with Leaf _ _ => False | _ => True end ->
   go_eq c r =
+  comparable c && comparable r &&
   match c with
   | Leaf _ LDeadline | Leaf _ (LErrno _) | Leaf _ (LUser ULVal _ _ _) | Leaf _ (LUser ULNoCmp _ _ _) => false
   | _ => Pos.eqb (node_oid c) (node_oid r) && same_go_type c r
   end.
 Proof.
-  destruct r; try contradiction; intros _;
-    destruct c as [? [| | | | | | | | | | |[] ? ? ?]| | | | | |]; reflexivity.
+  destruct r as [|ir wr cr| | | | |]; try contradiction; intros _.
+  1: destruct wr; try match goal with u : uwrap |- _ => destruct u end.
+  all: destruct c as [? [| | | | | | | | | | |[] ? ? ?]|ic wc cc| | | | |]; try reflexivity.
+  all: destruct wc; try reflexivity; match goal with u : uwrap |- _ => destruct u end; reflexivity.
 Qed.
 
 Lemma hid_eq_go_eq_r e1 e2 c : hid_eq e1 e2 -> go_eq c e1 = go_eq c e2.
 Proof.
   intro H. destruct (hid_eq_nonleaf _ _ H) as [->|[N1 N2]]; [reflexivity|].
   rewrite !go_eq_nonleaf_r by assumption.
-  rewrite (hid_eq_node_oid _ _ H), (hid_eq_same_go_type_r _ _ c H). reflexivity.
+  rewrite (hid_eq_node_oid _ _ H), (hid_eq_same_go_type_r _ _ c H), (hid_eq_comparable _ _ H). reflexivity.
 Qed.
 
 Lemma hid_eq_own_match_r e1 e2 c : hid_eq e1 e2 -> own_match c e1 = own_match c e2.
